@@ -1,16 +1,32 @@
 import Wayfind.Proofs.MapInfo
 import Wayfind.Proofs.Reachable
+import Wayfind.Proofs.Family
+import Wayfind.Proofs.Oci6
 
 /-! # C16 — a cloned router is independent of its original
-In the model routers are values, so operations on one cannot reach the other; what has to be shown is that the copy
-made by `Clone` — which gives every stored shared value an `Arc` (cell) of its own — is observably the original:
-it answers every search identically (`C16_clone_search`), prints identically (`C16_clone_display`), holds the same
-keys with the same template, expansion, data, depth and length (`C16_clone_lookup`, so `insert` finds the same
-conflicts and `delete` the same mismatches), keeps the constraint registry, and is again a well-formed tree on which
-all search theorems hold (`C16_clone_good`).
-Status: **partial** — that `delete` on a clone returns the same data as on an independently built router needs the
-reference-count invariant (every cell of a clone has count 1, so the last expansion deleted hands the data back);
-tied by the family and clone-interleaving suites (every output of every router of the family compared, FUN oracle). -/
+In the model routers are values, so operations on one cannot reach the other; `Clone` (repaired: every stored shared
+value gets an `Arc` — a cell — of its own, `Node.recell`, and the copy starts a count table of its own) is a *step of
+every history*: `Call.clone` continues on the copy, so `Reachable` and `Live` — and with them every theorem of C01–C15
+about reachable routers — cover clones, clones of clones, and everything done to them afterwards.
+
+What is shown here:
+* the copy is observably the original at the moment of cloning: it answers every search identically
+  (`C16_clone_search`), prints identically (`C16_clone_display`), holds the same keys with the same template,
+  expansion, data, depth and length (`C16_clone_lookup`), keeps the registry;
+* the copy is again a reachable router holding the same live templates (`C16_clone_live`), so `delete` on it returns
+  the inserted data (`C16_delete_on_clone_returns_data`: the reference-count invariant `RcInv` is generalised from "all
+  routes of a template share one cell whose count is their number" to "every cell's count is the number of the
+  template's routes holding it", which `recell` establishes with count one — different keys get different cells,
+  `recell_cell_inj`);
+* **`Clone` is unobservable** (`C16_clone_unobservable`): for every history with `clone` steps anywhere in it, every
+  call returns exactly what it returns in the same history with the `clone` steps removed — `Ok`/error payloads of
+  `constraint`, `insert`, `delete` including the data handed back — and the final routers answer every search
+  identically and print the same tree; more generally what a call returns depends only on the set of live
+  (template, data) pairs and the registry (`C16_same_templates_same_outcome`), which is "behaves exactly as a router
+  built independently with the same templates".
+"No effect on the other router" is the value semantics of the model; what ties it to the crate is that a clone shares
+no `Arc<T>` with its original (the repaired `Clone for NodeData`), checked by the family / clonescope suites, which
+interleave operations on all members of a clone family and compare every output of every member. -/
 
 theorem C16_clone_search (env : Env) (r : Router) (path : Bytes) : r.clone.search env path = r.search env path :=
   Router.clone_search env r path
@@ -21,3 +37,45 @@ theorem C16_clone_lookup (r : Router) (P : List Part) :
     (Node.find r.clone.root P).map eraseCell = (Node.find r.root P).map eraseCell := Router.clone_find r P
 
 theorem C16_clone_registry (r : Router) : r.clone.registry = r.registry := rfl
+
+/-- a clone of a router reached through the API (clones included) is again such a router, with the same live templates -/
+theorem C16_clone_live (r : Router) (L : List LiveT) (h : Live r L) : Live r.clone L :=
+  h.step .clone
+
+/-- the tree of a clone is canonical: well-shaped, sorted, maximally compressed, flags sound -/
+theorem C16_clone_good (r : Router) (h : Reachable r) : Good3 r.clone.root ∧ Canon r.clone.root := by
+  have hr : Reachable r.clone := by
+    obtain ⟨b, calls, rfl⟩ := h
+    exact ⟨b, calls ++ [.clone], by simp [List.foldl_append, Router.step]⟩
+  exact ⟨reachable_good3 _ hr, reachable_canon _ hr⟩
+
+/-- `delete` of a live template on a clone hands back the data given at insertion, and leaves exactly the others -/
+theorem C16_delete_on_clone_returns_data (r : Router) (L : List LiveT) (h : Live r L) (lt : LiveT) (hlt : lt ∈ L) :
+    (r.clone.delete lt.template).1 = .ok lt.data ∧
+    Live (r.clone.delete lt.template).2 (L.filter (fun x => x.template != lt.template)) :=
+  delete_live_api (h.step .clone) lt hlt
+
+/-- what a call returns depends only on the live (template, data) pairs and the registry — however the two routers
+were reached (clones, other insertion orders, templates inserted and deleted on the way) -/
+theorem C16_same_templates_same_outcome (r1 r2 : Router) (L1 L2 : List LiveT) (h1 : Live r1 L1) (h2 : Live r2 L2)
+    (h : SameTD L1 L2) (hreg : r1.registry = r2.registry) (c : Call) : r1.outcome c = r2.outcome c :=
+  outcome_same h1 h2 h hreg c
+
+/-- **`Clone` is unobservable**: outcomes of all calls, final search results and final drawing of a history with `clone`
+steps equal those of the history without them -/
+theorem C16_clone_unobservable (env : Env) (builtins : List (Bytes × Bytes)) (calls : List Call) :
+    (runOut { registry := builtins } calls).filter (fun o => !o.isCloned) =
+      runOut { registry := builtins } (calls.filter notClone) ∧
+    (∀ path, (calls.foldl Router.step { registry := builtins }).search env path =
+      ((calls.filter notClone).foldl Router.step { registry := builtins }).search env path) ∧
+    (calls.foldl Router.step { registry := builtins }).display =
+      ((calls.filter notClone).foldl Router.step { registry := builtins }).display :=
+  clone_unobservable env builtins calls
+
+/-- non-vacuity: the grouped template `/v2(/)` (two routes sharing one `Arc`), inserted with data 7 and cloned:
+`delete` on the clone and on the original both hand the data back -/
+example : ∃ r, ({} : Router).insert ociRoot 7 = .ok r ∧ (r.clone.delete ociRoot).1 = .ok 7 ∧ (r.delete ociRoot).1 = .ok 7 := by
+  have h0 : Live ({} : Router) [] := ⟨[], [], rfl⟩
+  obtain ⟨r, hi, hl, _⟩ := live_insert_ok h0 ociRoot 7 ociRootExps ociRoot_parse (by decide) (by intro lt h; cases h)
+  exact ⟨r, hi, (C16_delete_on_clone_returns_data r _ hl ⟨ociRoot, 7, ociRootExps⟩ (by simp)).1,
+    (delete_live_api hl ⟨ociRoot, 7, ociRootExps⟩ (by simp)).1⟩
